@@ -664,10 +664,24 @@ EXTRA = [c03_flow.construction_sites, c03_flow.heading_iterators]
 REPLAY_UNKNOWN = True    # an obligation the solver leaves unknown is searched natively (replay/C03.py) before it is reported undecided
 
 
-TRUSTED = ["observation of a unit = (get_metadata().unit_number, get_text()) computed by the real accessor methods"]
+TRUSTED = ["observation of a unit = (get_metadata().unit_number, get_text()) computed by the real accessor methods",
+           "record parsers of the PowerPoint stream (_extract_slide_list_texts, _parse_containers, _extract_all_text_raw) return "
+           "arbitrary well-typed lists or raise (assumed contracts; their content is C02's)",
+           "construction-site and heading-iterator obligations with back end `dataflow` are decided by per-iteration event counting "
+           "on the AST (contracts/c03_flow.py); an unrecognised shape is UNDECIDED"]
 ASSUMED_MODELS = ["str.strip (uninterpreted)", "str.join over a symbolic-length sequence (uninterpreted function of separator, element function, length)",
                   "PptSlideContent.text_combined / OdpSlide.text_combined / PptxSlide.get_text / XlsSheet.get_table: pure functions of the instance"]
+NOT_CLAIMED = ["coverage of the body by the heading-section units of doc/docx/odt (only their numbering 1..m is claimed; natively observed: "
+               "a docx heading with empty text, or paragraphs before the first heading, produce no unit for the following body text)",
+               "get_full_text of ppt/xls/rtf/doc/docx/odt (the statement lists eleven formats; these six are documented otherwise)",
+               "end-to-end extraction (that page.text IS the text of PDF page k etc.) is C02's; here unit k == element k of the content object "
+               "and element k == source item k at the construction sites"]
 ASSUMPTIONS = ["DT-TYPED: fields of the content dataclasses hold values of their declared types (lists are finite)",
+               "class invariant used for the position clause of stored-number types (ppt/pptx/odp: slide_number == position; epub: "
+               "chapter numbers strictly increasing from >= 1) is established at the construction sites (part d) and assumed for "
+               "hand-built or deserialised content objects",
+               "str() of a spreadsheet cell value is total",
+               "PY-RE: compiled-pattern .sub is total and uninterpreted",
                "PY-GEN: generator = procedure appending to the ghost sequence of unit observations",
                "PY-STR", "PY-EXC / EXC-ANY"]
 BOUNDED = []
